@@ -113,12 +113,6 @@ Print Assumptions C02_cover_step_pipeline.
 (* ---- 2c. sequential histories of any length: every operation is followed by a read of the whole queue.
    FULL statement: for every history of applicable operations on normal paths that leave the root and its ancestors
    alone, Cover holds at the end. *)
-Definition op_keeps_root (C : cfg) (o : op) : Prop :=
-  match o with
-  | Rmdir p => p <> c_root C
-  | Rename p q => p <> c_root C /\ q <> c_root C /\ under p (c_root C) = false
-  | _ => True
-  end.
 Definition C02_cover_sequential_full : Prop :=
   forall C, c_faults C = [] -> c_fix_ignored C = true -> c_fix_movein C = true -> c_fix_simulate C = true -> mask_ok C ->
   forall ops w, wf_fs w -> fisdir (c_root C) (w_fs w) = true ->
